@@ -181,12 +181,13 @@ static int run_main(int argc, char **argv) {
     if (argc < 1) return 2;
     hx_batch b;
     if (hx_batch_load(argv[0], &b) != 0) { fprintf(stderr, "hx: cannot load %s\n", argv[0]); return 2; }
-    int force_dump = -1;
+    int force_dump = -1, cost = 0;
     int64_t start = 0;
     for (int i = 1; i < argc; i++) {
         if (strcmp(argv[i], "--dump") == 0 && i + 1 < argc) force_dump = atoi(argv[++i]);
         else if (strcmp(argv[i], "--start") == 0 && i + 1 < argc) start = atoll(argv[++i]);
         else if (strcmp(argv[i], "--crash-dir") == 0 && i + 1 < argc) hx_crash_dir = argv[++i];
+        else if (strcmp(argv[i], "--cost") == 0) cost = 1;
     }
     hx_stats tot;
     memset(&tot, 0, sizeof tot);
@@ -198,7 +199,11 @@ static int run_main(int argc, char **argv) {
         if ((int64_t) i < start) continue;
         hx_current_case = &b.cases[i];
         alarm(600);
+        { extern uint64_t hx_cost_blocks, hx_cost_bytes; extern int hx_cost_armed; extern uint64_t hx_cost_buffered; hx_cost_blocks = hx_cost_bytes = hx_cost_buffered = 0; hx_cost_armed = cost; }
         hx_run(&b.cases[i], &r);
+        { extern uint64_t hx_cost_blocks, hx_cost_bytes; extern int hx_cost_armed; extern uint64_t hx_cost_buffered; hx_cost_armed = 0;
+          if (cost) printf("C {\"id\":%u,\"buffered\":%llu,\"blocks\":%llu,\"bytes\":%llu,\"api_calls\":%llu,\"offered\":%llu,\"ntx\":%d,\"in_status\":%d}\n", b.cases[i].id, (unsigned long long) hx_cost_buffered, (unsigned long long) hx_cost_blocks,
+                           (unsigned long long) hx_cost_bytes, (unsigned long long) r.st.api_calls, (unsigned long long) (r.st.bytes_offered_in + r.st.bytes_offered_out), r.n_tx, 0); }
         alarm(0);
         hx_current_case = NULL;
         if (r.dump.n) { fputs("D ", stdout); fwrite(r.dump.p, 1, r.dump.n, stdout); fputc('\n', stdout); }
